@@ -44,14 +44,17 @@ import (
 	"github.com/oasisprotocol/oasis-core/go/common/crypto/signature"
 	"github.com/oasisprotocol/oasis-core/go/common/node"
 	"github.com/oasisprotocol/oasis-core/go/common/quantity"
+	"github.com/oasisprotocol/oasis-core/go/common/version"
 	consensus "github.com/oasisprotocol/oasis-core/go/consensus/api"
 	"github.com/oasisprotocol/oasis-core/go/consensus/api/transaction"
+	genesis "github.com/oasisprotocol/oasis-core/go/genesis/api"
 	governance "github.com/oasisprotocol/oasis-core/go/governance/api"
 	churp "github.com/oasisprotocol/oasis-core/go/keymanager/churp"
 	secrets "github.com/oasisprotocol/oasis-core/go/keymanager/secrets"
 	registry "github.com/oasisprotocol/oasis-core/go/registry/api"
 	roothash "github.com/oasisprotocol/oasis-core/go/roothash/api"
 	staking "github.com/oasisprotocol/oasis-core/go/staking/api"
+	upgrade "github.com/oasisprotocol/oasis-core/go/upgrade/api"
 	vault "github.com/oasisprotocol/oasis-core/go/vault/api"
 
 	"verifharness/internal/coqout"
@@ -90,7 +93,13 @@ func (s *scen) cfg(name string) muxdrv.ReplicaConfig {
 func mustQ(v uint64) quantity.Quantity { return *quantity.NewFromUint64(v) }
 
 func buildScenario(seed uint64, n int) (*scen, error) {
-	g, err := muxdrv.NewGenesis(seed, muxdrv.GenesisOpts{})
+	opts := muxdrv.GenesisOpts{}
+	if seed%2 == 1 {
+		// every other history runs with a non-zero minimum transacting balance, which arms the
+		// post-transfer / post-deposit balance checks of the staking handlers
+		opts.Mutate = func(doc *genesis.Document) { doc.Staking.Parameters.MinTransactBalance = mustQ(1000) }
+	}
+	g, err := muxdrv.NewGenesis(seed, opts)
 	if err != nil {
 		return nil, err
 	}
@@ -647,6 +656,9 @@ func (c *gctx) plain() *muxdrv.Key {
 	return c.s.g.Accounts[2+c.rng.Intn(7)].Key // 2..8
 }
 
+// cycle is the round-robin position in the catalogue of handler failures (whole run).
+var cycle int
+
 type built struct {
 	label  string
 	key    *muxdrv.Key
@@ -802,6 +814,24 @@ func (c *gctx) execFailing() built {
 			})
 		},
 		func() built {
+			return mk("gov/bad-changes", c.plain(), func(n uint64, f *transaction.Fee) *transaction.Transaction {
+				return governance.NewSubmitProposalTx(n, f, &governance.ProposalContent{
+					Metadata:         &governance.ProposalMetadata{Title: "x"},
+					ChangeParameters: &governance.ChangeParametersProposal{Module: staking.ModuleName, Changes: cbor.Marshal(map[string]int{"no_such_parameter": 1})},
+				})
+			})
+		},
+		func() built {
+			return mk("gov/upgrade-too-soon", c.plain(), func(n uint64, f *transaction.Fee) *transaction.Transaction {
+				return governance.NewSubmitProposalTx(n, f, &governance.ProposalContent{
+					Metadata: &governance.ProposalMetadata{Title: "x"},
+					Upgrade: &governance.UpgradeProposal{Descriptor: upgrade.Descriptor{
+						Versioned: cbor.NewVersioned(upgrade.LatestDescriptorVersion), Handler: "verif-handler",
+						Target: version.Versions, Epoch: beacon.EpochTime(1 + r.Intn(2))}},
+				})
+			})
+		},
+		func() built {
 			return mk("gov/vote-nonexistent", v[r.Intn(len(v))].Entity, func(n uint64, f *transaction.Fee) *transaction.Transaction {
 				return muxdrv.TxCastVote(n, f, 90+uint64(r.Intn(9)), governance.VoteYes)
 			})
@@ -847,6 +877,22 @@ func (c *gctx) execFailing() built {
 			return mk("registry/node-bad-roles", vv.Node, func(n uint64, f *transaction.Fee) *transaction.Transaction {
 				return muxdrv.TxRegisterNode(n, f, vv, muxdrv.NodeDescriptor(vv, 50, node.RolesMask(1<<20)))
 			})
+		},
+		func() built {
+			// update of a live validator node that drops the validator role: the stake claim
+			// (other thresholds) is written before the update is refused.
+			vv := v[r.Intn(len(v))]
+			return inTx(mk("registry/node-update-drops-role", vv.Node, func(n uint64, f *transaction.Fee) *transaction.Transaction {
+				return muxdrv.TxRegisterNode(n, f, vv, muxdrv.NodeDescriptor(vv, 60, node.RoleObserver))
+			}))
+		},
+		func() built {
+			vv := v[r.Intn(len(v))]
+			alt := *vv
+			alt.Cons = s.fresh2.Cons
+			return inTx(mk("registry/node-update-consensus-key", vv.Node, func(n uint64, f *transaction.Fee) *transaction.Transaction {
+				return muxdrv.TxRegisterNode(n, f, &alt, muxdrv.NodeDescriptor(&alt, 60, node.RoleValidator))
+			}))
 		},
 		func() built {
 			return mk("registry/deregister-has-nodes", v[r.Intn(len(v))].Entity, func(n uint64, f *transaction.Fee) *transaction.Transaction {
@@ -932,6 +978,36 @@ func (c *gctx) execFailing() built {
 			})
 		},
 	}
+	// Only in histories with MinTransactBalance > 0: the balance left behind is below the minimum
+	// (checked by the handlers AFTER the in-memory move, before the writes).
+	minGens := []gen{
+		func() built {
+			k := c.plain()
+			return mk("transfer/leaves-below-min", k, func(n uint64, f *transaction.Fee) *transaction.Transaction {
+				return muxdrv.TxTransfer(n, f, acc[0].Address, c.bal(k)-f.Amount.ToBigInt().Uint64()-uint64(1+r.Intn(999)))
+			})
+		},
+		func() built {
+			k := c.plain()
+			return mk("escrow/leaves-below-min", k, func(n uint64, f *transaction.Fee) *transaction.Transaction {
+				return muxdrv.TxAddEscrow(n, f, v[r.Intn(len(v))].EntityAddress(), c.bal(k)-f.Amount.ToBigInt().Uint64()-uint64(1+r.Intn(999)))
+			})
+		},
+		func() built {
+			k := c.plain()
+			return mk("burn/leaves-below-min", k, func(n uint64, f *transaction.Fee) *transaction.Transaction {
+				return muxdrv.TxBurn(n, f, c.bal(k)-f.Amount.ToBigInt().Uint64()-uint64(1+r.Intn(999)))
+			})
+		},
+		func() built {
+			return inTx(mk("withdraw/leaves-source-below-min", acc[3].Key, func(n uint64, f *transaction.Fee) *transaction.Transaction {
+				return muxdrv.TxWithdraw(n, f, acc[2].Address, c.bal(acc[2].Key)-uint64(1+r.Intn(999)))
+			}))
+		},
+	}
+	if s.g.Doc.Staking.Parameters.MinTransactBalance.ToBigInt().Sign() > 0 && r.Chance(12) {
+		return minGens[r.Intn(len(minGens))]()
+	}
 	// Generic: every method with a garbage body, every method with its zero-value body.
 	var methods []transaction.MethodName
 	for m := range s.known {
@@ -966,11 +1042,13 @@ func (c *gctx) execFailing() built {
 			})
 		},
 	)
-	i := r.Intn(len(gens) + 6)
-	if i >= len(gens) {
-		i = len(gens) - 1 - (i-len(gens))%2 // the two generic ones get extra weight
+	// Round-robin over the catalogue (so that even a small run meets every class), the two
+	// generic generators get every fourth draw.
+	cycle++
+	if cycle%4 == 0 {
+		return gens[len(gens)-1-r.Intn(2)]()
 	}
-	return gens[i]()
+	return gens[(cycle-cycle/4)%(len(gens)-2)]()
 }
 
 // validBase builds a transaction that would succeed (for stage modifiers and gas sweeps).
@@ -990,6 +1068,10 @@ func (c *gctx) validBase() built {
 	case 3:
 		return built{label: "reclaim", key: acc[4].Key, tx: muxdrv.TxReclaimEscrow(c.nonce(acc[4].Key), f, v[1%len(v)].EntityAddress(), 1+uint64(r.Intn(100))), hkind: 2}
 	case 4:
+		for k == acc[5].Key { // account 5 already holds MaxAllowances allowances
+			k = c.plain()
+		}
+		n = c.nonce(k)
 		return built{label: "allow", key: k, tx: muxdrv.TxAllow(n, f, acc[0].Address, false, 10+uint64(r.Intn(500))), hkind: 2}
 	case 5:
 		return built{label: "withdraw", key: acc[3].Key, tx: muxdrv.TxWithdraw(c.nonce(acc[3].Key), f, acc[2].Address, 10+uint64(r.Intn(100))), hkind: 2}
@@ -1014,10 +1096,10 @@ func (c *gctx) genCase() *Case {
 		return cs
 	}
 	switch p := r.Intn(100); {
-	case p < 45: // handler failures
+	case p < 50: // handler failures
 		b := c.execFailing()
 		return set("exec", b.label, muxdrv.Sign(b.key, b.tx), b)
-	case p < 60: // gas limit sweep on an otherwise valid transaction
+	case p < 64: // gas limit sweep on an otherwise valid transaction
 		b := c.validBase()
 		cost := s.opCost[b.tx.Method][0]
 		size := uint64(len(muxdrv.Sign(b.key, b.tx)))
@@ -1053,7 +1135,7 @@ func (c *gctx) genCase() *Case {
 			stage = "ok"
 		}
 		return set(stage, "gas-sweep/"+b.label, raw, b)
-	case p < 75: // authentication failures
+	case p < 77: // authentication failures
 		b := c.validBase()
 		b.hkind = 2
 		mod := r.Intn(6)
@@ -1087,7 +1169,7 @@ func (c *gctx) genCase() *Case {
 			tx := muxdrv.TxTransfer(0, muxdrv.Fee(1+uint64(r.Intn(50)), muxdrv.DefaultGas), s.g.Accounts[0].Address, 100)
 			return set("auth", "unfunded-signer/transfer", muxdrv.Sign(k, tx), built{tx: tx, hkind: 2})
 		}
-	case p < 80: // unknown method / empty account with zero fee
+	case p < 82: // unknown method / empty account with zero fee
 		k := c.plain()
 		if r.Chance(30) {
 			tx := muxdrv.TxTransfer(0, muxdrv.Fee(0, muxdrv.DefaultGas), s.g.Accounts[0].Address, 100)
